@@ -8,7 +8,7 @@ import RsslVerif.Model.ParseStmt
 
 `parse_struct_entry` selects the longer of member and method; a member ends with `;` after its declarators, a method
 needs `(` after its name: the model takes the member when that reading succeeds and the method otherwise.
-Not modelled: `template<…>` (a leading `template` is `none`), register / packoffset annotations, base types.
+Not modelled: `template<…>` (a leading `template` is `none`), register / packoffset annotations.
 -/
 namespace RsslVerif.Model.ParseDef
 open RsslVerif.Gen.FmtTables RsslVerif.Gen.ParseTables RsslVerif.Gen.SyntaxTables RsslVerif.Model.Format
@@ -114,15 +114,34 @@ def parseMembers : Nat → List Tok → Res (List Member)
         | .fail => .fail
         | .panic => .panic
 
+/-- `parse_list_nonempty(Comma, parse_type)` after the `:` of a struct.  When no type can be read after a comma the real
+list ends in front of that comma (or fails, if the attempt made progress); either way `parse_struct_definition` then
+fails for want of `{`, so the model answers `none` there. -/
+def parseBases : Nat → List Tok → Option (List BaseTy × List Tok)
+  | 0, _ => none
+  | f + 1, ts =>
+    match parseTy W f ts with
+    | some (b, .p .Comma :: r) =>
+      match parseBases f r with
+      | some (bs, r') => some (b :: bs, r')
+      | none => none
+    | some (b, r) => some ([b], r)
+    | none => none
+
 /-- `parse_struct_definition` -/
 def parseStruct (f : Nat) (ts : List Tok) : Res StructDef :=
   match ts with
-  | .p .Struct :: .id name :: .p .LeftBrace :: r =>
-    match parseMembers W f r with
-    | .ok ms (.p .RightBrace :: .p .Semicolon :: r') => .ok ⟨name, ms⟩ r'
-    | .ok _ _ => .fail
-    | .fail => .fail
-    | .panic => .panic
+  | .p .Struct :: .id name :: r0 =>
+    match (match r0 with
+           | .p .Colon :: r1 => parseBases W f r1
+           | _ => some ([], r0)) with
+    | some (bases, .p .LeftBrace :: r) =>
+      match parseMembers W f r with
+      | .ok ms (.p .RightBrace :: .p .Semicolon :: r') => .ok ⟨name, bases, ms⟩ r'
+      | .ok _ _ => .fail
+      | .fail => .fail
+      | .panic => .panic
+    | _ => .fail
   | _ => .fail
 
 end RsslVerif.Model.ParseDef
